@@ -48,7 +48,7 @@ def run(chk, args):
         for k, p in enumerate(progs[:n]):
             tid = k + 1
             if k % 3 == 0:
-                types = ["volume", "volume", "", "volume"][:max(2, len(p["base"]))]
+                types = (["volume", "volume", "", "volume"] if k % 2 else ["volume", "", "", ""])[:max(2, len(p["base"]))]
                 d = probe.make_def("vrb%d" % tid, types, haveFq=(k % 2 == 0), hollow=(k % 4 == 0), nmodes=2,
                                    valid=rng.choice([(0,), (2, 0, 1)]))
                 scen.append({"tid": tid, "probe": d, "shape": p, "seed": rng.randrange(1 << 30)})
